@@ -85,10 +85,29 @@ RET_T = {'bool': 'Bool', 'int': 'Int', 'none': 'Unit', 'int*int': '(Int × Int)'
 
 
 class _Tr:
-    def __init__(self, spec: Spec, fname: str):
+    def __init__(self, spec: Spec, fname: str, globs: dict | None = None):
         self.spec = spec
         self.fname = fname
         self.tmp = 0
+        self.globs = globs or {}  # the module the function lives in: named constants, one-line helpers
+        self.inlining: list[str] = []
+
+    def helper_body(self, name: str) -> ast.expr | None:
+        """`name` is a module-level function without parameters whose body is `return <expr>` (after an
+        optional docstring): the expression, to be translated in place of the call."""
+        f = self.globs.get(name)
+        if not inspect.isfunction(f) or name in self.inlining:
+            return None
+        try:
+            fd = ast.parse(textwrap.dedent(inspect.getsource(f))).body[0]
+        except (OSError, TypeError, SyntaxError):
+            return None
+        if not isinstance(fd, ast.FunctionDef) or fd.args.args or fd.args.kwonlyargs or fd.args.vararg or fd.args.kwarg:
+            return None
+        body = [b for b in fd.body if not (isinstance(b, ast.Expr) and isinstance(b.value, ast.Constant) and isinstance(b.value.value, str))]
+        if len(body) == 1 and isinstance(body[0], ast.Return) and body[0].value is not None:
+            return body[0].value
+        return None
 
     # -- expressions: returns (lean, type) ---------------------------------------------------------
     def expr(self, e: ast.AST, env: dict[str, str]) -> tuple[str, str]:
@@ -133,6 +152,11 @@ class _Tr:
                     return f'v_{e.id}', env[e.id]
                 if e.id in sp.params:
                     return f'p_{e.id}', sp.params[e.id]
+                g = self.globs.get(e.id)
+                if isinstance(g, bool):
+                    return ('true' if g else 'false'), 'bool'
+                if isinstance(g, int):
+                    return f'({int(g)} : Int)', 'int'  # a module-level named constant
                 raise Unsupported(f'name {e.id}')
             if isinstance(e, ast.Attribute) and isinstance(e.value, ast.Name):
                 if e.value.id == 'self':
@@ -143,6 +167,14 @@ class _Tr:
                 if key in sp.attr_params:
                     return f'p_{e.value.id}_{e.attr}', sp.attr_params[key]
             raise Unsupported(f'name {d}')
+        if isinstance(e, ast.Call) and isinstance(e.func, ast.Name) and not e.args and not e.keywords and e.func.id not in env:
+            inner = self.helper_body(e.func.id)
+            if inner is not None:
+                self.inlining.append(e.func.id)
+                try:
+                    return self.expr(inner, {})
+                finally:
+                    self.inlining.pop()
         if isinstance(e, ast.Call):
             # int(time.time())
             if isinstance(e.func, ast.Name) and e.func.id == 'int' and len(e.args) == 1 and not e.keywords:
@@ -425,7 +457,7 @@ def translate(fn: Any, spec: Spec, lean_name: str | None = None, nested: str | N
     for a in rest:
         if a not in spec.params and a not in objs:
             raise Unsupported(f'parameter {a} of {fdef.name} is not declared in the spec')
-    tr = _Tr(spec, fdef.name)
+    tr = _Tr(spec, fdef.name, getattr(fn, '__globals__', None))
     opening = ''.join(f'  let s_{f} : {LEAN_T[t]} := st.{f}\n' for f, t in spec.fields.items())
     body = tr.block(list(fdef.body), [], {}, 1)
     params = [(f'p_{p}', LEAN_T[t]) for p, t in spec.params.items() if p in declared]
